@@ -360,7 +360,7 @@ var hugeLens = []int{1 << 16, 1 << 20, 1 << 28, 1 << 31, 1<<31 + 1, 1 << 40, 1 <
 
 func drawC14(t *rapid.T) any {
 	c := &C14Case{Abandon: -1}
-	tcfg := gomodel.TypeCfg{Tags: true, Pool: true, InlineOnlyStruct: true, Normalising: true}
+	tcfg := gomodel.TypeCfg{Tags: true, Pool: true, InlineOnlyStruct: true, Normalising: true, Recursive: !genExcludedRecursive()}
 	switch w := rapid.IntRange(0, 9).Draw(t, "c14kind"); {
 	case w < 3:
 		c.Kind = "independent"
